@@ -132,6 +132,12 @@ class Probe:
         total = None
         for a in self.args:
             v = kw[a]
+            if a.endswith("_integral"):
+                # integrate (mean) over the integral points: (n_x, n_int, .) -> (n_x, .), (1, n_int, .) -> (1, .)
+                v = torch.mean(v, dim=1)
+                v = v if a.startswith("u") else v[..., :1]
+            elif v.dim() == 3:
+                v = v[:, 0, :]
             if a.startswith("u"):
                 term = self.coef.get(a, 1.0) * v
             elif a.startswith("x"):
@@ -226,6 +232,15 @@ def build_condition(cs, shared=None):
     smp = shared.get("sampler") or make_sampler(cs["sampler"], shared.get("domains"))
     record_sampler(smp, samples)
     b["sampler"] = smp
+    if kind == "integro":
+        T = tp.domains.Interval(sp["t"], 0.0, 2.0)
+        ci = {"random": tp.samplers.RandomUniformSampler, "grid": tp.samplers.GridSampler}[cs["int_sampler"]["kind"]]
+        isamp = ci(T, n_points=cs["int_sampler"]["n"])
+        b["int_samples"] = []
+        record_sampler(isamp, b["int_samples"])
+        b["int_sampler"] = isamp
+        b["cond"] = tp.conditions.IntegroPINNCondition(model, smp, probe.fn, isamp, **kw)
+        return b
     if kind == "pinn":
         b["cond"] = tp.conditions.PINNCondition(model, smp, probe.fn, **kw)
     elif kind == "mean":
@@ -245,7 +260,7 @@ def build_condition(cs, shared=None):
 def expected_loss(b, resid):
     kind = b["spec"]["kind"]
     r = resid.detach().double()
-    if kind in ("pinn", "periodic"):
+    if kind in ("pinn", "periodic", "integro"):
         return float(torch.mean(torch.sum(r ** 2, dim=1)))
     if kind == "mean":
         return float(torch.mean(r))
@@ -302,6 +317,38 @@ def check_eval(b, loss, n_before, out, stats, prop="C04", eval_no=0):
                                         fn=fname, max_abs=None if call[key].shape != wantf.shape else float((call[key].detach() - wantf).abs().max())))
         if "x" in call and not torch.equal(call["x"].detach(), x):
             out.append(viol(prop, "args", "coordinates-differ-from-sample", "x"))
+    elif kind == "integro":
+        x, t = cols["x"], cols["t"]
+        tint = b["int_samples"][-1]
+        n_x, n_i = len(x), len(tint)
+        for v in ("x", "t"):
+            if v in call and (call[v].shape != (n_x, 1, cols[v].shape[1]) or not torch.equal(call[v].detach()[:, 0, :], cols[v])):
+                out.append(viol(prop, "args", "coordinates-differ-from-sample", v))
+                return
+        if "t_integral" in call and (call["t_integral"].shape != (1, n_i, 1) or not torch.equal(call["t_integral"].detach()[0], tint)):
+            out.append(viol(prop, "args", "integral-points-differ-from-the-integral-sample", "t_integral"))
+            return
+        if "u" in call:
+            wantu = closed_form(w, x, t, cs["out_dim"])
+            if call["u"].shape != (n_x, 1, cs["out_dim"]) or not torch.allclose(call["u"].detach()[:, 0, :], wantu, rtol=1e-5, atol=1e-6):
+                out.append(viol(prop, "args", "model-output-not-at-the-sampled-rows", kind))
+                return
+        if "u_integral" in call:
+            xx = x.unsqueeze(1).expand(n_x, n_i, 2)
+            tt = tint.unsqueeze(0).expand(n_x, n_i, 1)
+            wanti = closed_form(w, xx, tt, cs["out_dim"])
+            if call["u_integral"].shape != wanti.shape or not torch.allclose(call["u_integral"].detach(), wanti, rtol=1e-5, atol=1e-6):
+                out.append(viol(prop, "args", "model-output-not-at-(sampled row, integral point)", kind))
+                return
+        for fname, fargs in (cs.get("data_fns") or {}).items():
+            if fname in call:
+                wantf = data_value(list(fargs), x, t)
+                gotf = call[fname].detach()
+                gotf = gotf[:, 0, :] if gotf.dim() == 3 else gotf
+                if gotf.shape != wantf.shape or not torch.allclose(gotf, wantf, rtol=1e-5, atol=1e-6):
+                    out.append(viol(prop, "args", "data-function-not-evaluated-at-the-sampled-rows", kind, fn=fname,
+                                    eval=eval_no, static=cs["sampler"].get("static")))
+                    return
     else:
         x = cols["x"]
         t = cols.get("t", torch.zeros(len(x), 1))
